@@ -439,3 +439,13 @@ func eqVal(a, b SVal) string {
 	})
 	return and(parts...)
 }
+
+// idx(a, b) = a + b, through an uninterpreted function with a definitional axiom (see the
+// prelude): element addresses built this way give quantified clauses over s[k] a trigger that
+// matches whatever normal form the index expression has.
+func idx(a, b string) string {
+	if b == "0" {
+		return sx("idx", a, "0")
+	}
+	return sx("idx", a, b)
+}
